@@ -174,6 +174,10 @@ class TmpStoreReset(Spec):
         c.assume(z3.And(pos.t >= 0, pos.t <= c.obj(c.ghost['tmp']['file']).f['size']))
         return {'self': me, 'position': pos, 'index': index, 'creating': creating}
 
+    def requires(self, c, E):
+        size = c.obj(c.ghost['tmp']['file']).f['size']
+        return [('saved-position-within-the-file', z3.And(E['position'].t >= 0, E['position'].t <= size))]
+
     def modifies(self, c, E):
         g = c.ghost['tmp']
         f = g['file'].id
